@@ -172,7 +172,7 @@ def c06_tie(ctx, data):
     d0 = os.path.join(COQ, "Cases")
     os.makedirs(d0, exist_ok=True)
     f = os.path.join(d0, "Prefix_%d.v" % ctx.seed)
-    body = []
+    body, defs = [], []
     total = 0
     for k, d in enumerate(data):
         out = d["out"]
@@ -194,20 +194,24 @@ def c06_tie(ctx, data):
                 kk = exp if exp in cands else cands[0]
             obs.append("(%d, %s, %d%%nat)" % (r["n"], "true" if r["class"] == "error" else "false", kk))
             total += 1
-        body.append("Definition t%d : tape := %s.\nDefinition M%d := Eval vm_compute in prefix_mismatches t%d [%s].\nPrint M%d." %
-                    (k, cq_tape(out[0]["members"]), k, k, "; ".join(obs), k))
+        # one definition per 2000 cuts (a dense sweep has tens of thousands of cuts per tape: one literal list overflows coqc's stack)
+        body.append("Definition t%d : tape := %s." % (k, cq_tape(out[0]["members"])))
+        for a in range(0, max(len(obs), 1), 2000):
+            nm = "%d_%d" % (k, a // 2000)
+            defs.append(nm)
+            body.append("Definition M%s := Eval vm_compute in prefix_mismatches t%d [%s].\nPrint M%s." % (nm, k, "; ".join(obs[a:a + 2000]), nm))
     open(f, "w").write("From Coq Require Import List NArith ZArith Bool.\nImport ListNotations.\nFrom STFS Require Import Str Db Tape Index Prefix.\nOpen Scope N_scope.\n"
                        "Definition dh : hdr := {| h_tf := 48; h_name := []; h_link := []; h_size := 0; h_mode := 0; h_uid := 0; h_gid := 0; h_uname := []; h_gname := []; h_mtime := 0%Z; h_atime := 0%Z; h_ctime := 0%Z; h_pax := [] |}.\n"
                        "Definition mkm (hb enc : N) : member := {| m_hdr := dh; m_hb := hb; m_data := None; m_enc := enc |}.\n" + "\n".join(body) + "\n")
-    rc, out = sh("coqc -Q Skel STFS -Q Gen STFS -Q Mon STFS -Q Model STFS Cases/Prefix_%d.v" % ctx.seed, cwd=COQ, timeout=1200)
+    rc, out = sh("coqc -Q Skel STFS -Q Gen STFS -Q Mon STFS -Q Model STFS Cases/Prefix_%d.v" % ctx.seed, cwd=COQ, timeout=3600)
     for ext in (".vo", ".vok", ".vos", ".glob"):
         try:
             os.remove(f[:-2] + ext)
         except OSError:
             pass
     import re
-    ms = re.findall(r"M(\d+)\s*=\s*(\[[^\]]*\])", out)
+    ms = re.findall(r"M(\d+)_\d+\s*=\s*(\[[^\]]*\])", out)
     bad = [(int(k), re.findall(r"\d+", v)[:5]) for k, v in ms if v.strip() != "[]"]
-    cached = dict(ok=(rc == 0 and len(ms) == len(body)), bad=bad, total=total, log=out[-1500:])
+    cached = dict(ok=(rc == 0 and len(ms) == len(defs)), bad=bad, total=total, log=out[-1500:])
     streams.cache_put(p, cached)
     return cached
